@@ -127,21 +127,20 @@ Definition remove_index_entry (n : inode) (k : name) : inode * list iop :=
 
 (* DataNode::ReorderChild(child, optMoveToBeforeThis, notify); [kids] = the node's children
    (for the HasChild(optMoveToBeforeThis) test); [c] is a child of the node. *)
+Definition reorder_go (kids : list name) (cn : nat) (c : name) (b : bspec) (l : list name) : inode * list iop :=
+  let '(l1, ops1) := remove_entry c l in
+  match b with
+  | BRemove => (mkNode (Some l1) cn, ops1)
+  | BEnd => (mkNode (Some (insert_at l1 (length l1) c)) cn, ops1 ++ [OpIns (length l1) c])
+  | BName x => let tgt := if mem x kids then target_pos b l1 else length l1 in
+               (mkNode (Some (insert_at l1 tgt c)) cn, ops1 ++ [OpIns tgt c])
+  end.
+
 Definition reorder_child (kids : list name) (n : inode) (c : name) (b : bspec) : inode * list iop :=
   let self := match b with BName x => name_eqb x c | _ => false end in
-  let go (l : list name) :=
-      let '(l1, ops1) := remove_entry c l in
-      match b with
-      | BRemove => (mkNode (Some l1) (ctr n), ops1)
-      | _ => let tgt := match b with
-                        | BName x => if mem x kids then target_pos b l1 else length l1
-                        | _ => length l1
-                        end in
-             (mkNode (Some (insert_at l1 tgt c)) (ctr n), ops1 ++ [OpIns tgt c])
-      end in
   match idx n with
-  | None => if is_remove b then (n, []) else if self then (n, []) else go []
-  | Some l => if self then (n, []) else go l
+  | None => if is_remove b then (n, []) else if self then (n, []) else reorder_go kids (ctr n) c b []
+  | Some l => if self then (n, []) else reorder_go kids (ctr n) c b l
   end.
 
 (* DataNode::InsertIndexEntryAt(insertIndex, notify, key): key must be a child; the notification
